@@ -161,6 +161,55 @@ func keysOf(m map[string]json.RawMessage) []string {
 	return out
 }
 
+// a process with two joined in-ports, each fed by its own sub-stream: every placeholder carries its own members only
+func twoJoinedPorts(ctx *Ctx, na, nb int) {
+	d := &Desc{Name: "c18two", Max: 4}
+	pre := map[string]string{}
+	mk := func(pfx string, n int) []string {
+		ps := []string{}
+		for i := 0; i < n; i++ {
+			p := fmt.Sprintf("%s%d.txt", pfx, i)
+			ps = append(ps, p)
+			pre[p] = p + "\n"
+		}
+		return ps
+	}
+	pa, pb := mk("a", na), mk("b", nb)
+	d.Nodes = []Node{{Name: "srca", Kind: "filesource", Paths: pa}, {Name: "srcb", Kind: "filesource", Paths: pb},
+		{Name: "stsa", Kind: "substream"}, {Name: "stsb", Kind: "substream"},
+		{Name: "join", Kind: "proc", Cmd: `( echo "A {i:a|join: }" > args.log ; echo "B {i:b|join:,}" >> args.log ; echo x > {o:out} )`, Outs: map[string]string{"out": "joined2.out"}}}
+	d.Edges = []Edge{{From: "srca.out", To: "stsa.in"}, {From: "srcb.out", To: "stsb.in"}, {From: "stsa.substream", To: "join.a"}, {From: "stsb.substream", To: "join.b"}}
+	rr := RunWorkflow(d, RunOpts{Pre: pre, Timeout: 20e9})
+	defer os.RemoveAll(rr.Dir)
+	w := [2]int{na, nb}
+	ctx.Res.Eval(fmt.Sprintf("two-joined-ports %d+%d", na, nb), true, w)
+	ctx.Res.Count("two-joined-ports")
+	if rr.Exit != 0 {
+		ctx.Res.Violate(Violation{What: fmt.Sprintf("workflow with two joined in-ports exited %d: %s", rr.Exit, tail(rr.Stderr)), Class: "c18.run-failed", Witness: w})
+		return
+	}
+	pref := func(ps []string, sep string) string {
+		out := []string{}
+		for _, p := range ps {
+			out = append(out, "../"+p)
+		}
+		return strings.Join(out, sep)
+	}
+	args, _ := readFile(rr.Dir, "args.log")
+	want := "A " + pref(pa, " ") + "\nB " + pref(pb, ",") + "\n"
+	if args != want {
+		ctx.Res.Violate(Violation{What: fmt.Sprintf("with two joined in-ports the placeholders expanded to %q, expected each port's own members: %q", args, want), Class: "c18.expansion", Witness: w})
+	}
+	b, err := ioutil.ReadFile(filepath.Join(rr.Dir, "joined2.out.audit.json"))
+	var ai struct{ Upstream map[string]json.RawMessage }
+	if err == nil {
+		json.Unmarshal(b, &ai)
+	}
+	if err != nil || len(ai.Upstream) != na+nb {
+		ctx.Res.Violate(Violation{What: fmt.Sprintf("audit record of the task with two joined in-ports lists upstream %v, expected the %d members", keysOf(ai.Upstream), na+nb), Class: "c18.audit", Witness: w})
+	}
+}
+
 func checkC18(ctx *Ctx) {
 	ctx.Res.Rule = "FileSource -> (optional stage with random task durations) -> StreamToSubStream -> joining process; sub-stream lengths {0,1,2,3,B,B+5} for SCIPIPE_BUFSIZE in {1,2,3}, separators {space, comma, colon}, with and without a path modifier (basename, %suffix, s/a/b/); non-trivial = at least two members; distinct by case. Checks: one task per sub-stream, the placeholder's expansion as seen by the command (members in arrival order, separated by SEP, each prefixed for the task's directory), the Lean formatting model's expansion, the concatenated contents, and the audit record's upstream keys."
 	w := &Worker{}
@@ -191,6 +240,10 @@ func checkC18(ctx *Ctx) {
 			runC18(ctx, w, cases[i])
 		}
 	})
+	for k := 0; k < 4; k++ { // repeated: Go's map order decides which port is collected first
+		twoJoinedPorts(ctx, 3, 2)
+	}
+	twoJoinedPorts(ctx, 1, 4)
 }
 
 func init() { checks["C18"] = checkC18 }
